@@ -45,6 +45,9 @@ func (x *Exec) newStringSlice(s *State, site ssa.Instruction, suffix string) (*S
 	s.heap[o.id] = &ArrV{Elem: types.Typ[types.String], T: arr}
 	ln := Var(name+"$len", SInt)
 	s.assume(Ge(ln, Int(0)))
+	// a slice the library returned exists, so it fits in the address space
+	// (the same fact input slices get; string headers are 16 bytes)
+	s.assume(Le(ln, Int((1<<47)/16)))
 	return &SliceV{Nil: TFalse, Obj: o, Off: Int(0), Len: ln, Cap: ln, Elem: types.Typ[types.String]}, arr
 }
 
